@@ -1997,6 +1997,11 @@ def dask_groupby_agg(
             # find number of groups in each chunk, this is needed for output chunks
             # along the reduced axis
             # TODO: this logic is very specialized for the resampling case
+            if is_duck_dask_array(by_input):
+                raise NotImplementedError(
+                    "method='blockwise' with dask labels needs the labels of every block up front: "
+                    "pass expected_groups and leave reindex unset (or True)."
+                )
             slices = slices_from_chunks(tuple(array.chunks[ax] for ax in axis))
             if sort:
                 groups_in_block = tuple(_unique(by_input[slc]) for slc in slices)
@@ -2739,6 +2744,11 @@ def groupby_reduce(
         elif is_cftime:
             offset = array.min()
             array = datetime_to_numeric(array, offset, datetime_unit="us")
+
+    if _is_arg_reduction(func) and has_dask and nax != 1:
+        raise NotImplementedError(
+            "arg-reductions of dask arrays are only supported along a single axis. Please reshape appropriately."
+        )
 
     if nax == 1 and by_.ndim > 1 and expected_ is None:
         # When we reduce along all axes, we are guaranteed to see all
